@@ -32,7 +32,7 @@ RULE = ("pipelines {elementwise chain, 2-D outer product chain, tuple-output zip
         "non-mapped function} x storage {file_array, dict+persist} x selectors = every int in [-n,n) and every slice over start/stop in {None,-n..n} x step in {None,+-1,+-2} "
         "with a non-empty selection (deduplicated to distinct index sequences, two spellings each); BFS states = sets of present elements; for two independent axes the "
         "product of their selectors. Learners: fixed_indices None/each selector class (for two pipelines also with resources_scope=element: one learner per element), split_independent_axes F/T, return_output F/T, all unit orders within a generation "
-        "(<= 4 units: all permutations; more: identity, reversal and all rotations). Rejections: reduced axis, unknown axis, out-of-range int; and with output_names = the outputs of one function: an axis the selected sub-pipeline does not have (reject) / an axis that only a function outside it reduces (accept, exactly the selected calls). Part D: for three pipelines x {shared_memory_dict, file_array} the two pieces of the first axis, in both orders, on a REAL process pool (one free-running schedule each)")
+        "(<= 4 units: all permutations; more: identity, reversal and all rotations). Rejections: reduced axis, unknown axis, out-of-range int; and with output_names = the outputs of one function: an axis the selected sub-pipeline does not have (reject) / an axis that only a function outside it reduces (accept, exactly the selected calls). Part E: one piece (an int / a slice on the first axis) of five pipelines through map_async (virtual loop, deferred executor, default schedule) against the same piece through map. Part D: for three pipelines x {shared_memory_dict, file_array} the two pieces of the first axis, in both orders, on a REAL process pool (one free-running schedule each)")
 ASSUMPTIONS = ["reference = MapSpec denotation (vmc/gen_map.py) restricted to the selected external indices",
                "learners are executed through learner.ask/tell with the learner's own function, as adaptive's simple runner does, but in every order",
                "learner runs use file_array storage (memory storages are only persisted by run_map itself)"]
@@ -62,6 +62,9 @@ PIPES = {
     "two-partial-reducers": {"roots": {"x": ["i"], "q": ["j"]}, "sizes": S3, "axes": [], "reduced": ["i", "j"], "funcs": [
         _f("f", ["x", "q"], {"x": ["i"], "q": ["j"]}, ["i", "j"], [], ["a"]), _f("g", ["a"], {"a": ["i", None]}, ["i"], [], ["b"]),
         _f("h", ["a"], {"a": [None, "j"]}, ["j"], [], ["c"])]},
+    # a function WITH a MapSpec that also takes a mapped array whole (y is not in g's MapSpec): g reduces axis i of y
+    "mapped-function-takes-sibling-whole": {"roots": {"x": ["i"]}, "sizes": S3, "axes": [], "reduced": ["i"], "funcs": [
+        _f("f", ["x"], {"x": ["i"]}, ["i"], [], ["y"]), _f("g", ["x", "y"], {"x": ["i"]}, ["i"], [], ["z"])]},
     # an axis shared by two zipped ROOT inputs that sorts before another independent axis of another size
     "zip-then-outer": {"roots": {"x": ["i"], "y": ["i"], "q": ["j"]}, "sizes": {**S3, "i": 2, "j": 3}, "axes": ["i", "j"], "funcs": [
         _f("f", ["x", "y"], {"x": ["i"], "y": ["i"]}, ["i"], [], ["a"]), _f("g", ["a", "q"], {"a": ["i"], "q": ["j"]}, ["i", "j"], [], ["b"])]},
@@ -226,6 +229,53 @@ def check_pool_pieces(cfg):
         return out
     finally:
         pool.shutdown(wait=True)
+        shutil.rmtree(base, ignore_errors=True)
+
+
+def check_async_piece(cfg):
+    """Part E: one piece (first axis fixed to an int / a slice) through map_async (virtual event loop, deferred executor,
+    default schedule) must call and store exactly what the same piece through map does"""
+    from .. import explore, sched
+    spec = PIPES[cfg["pipe"]]
+    base = boot.mkscratch("c06e-")
+    sigbase = {"pipe": cfg["pipe"], "part": "E"}
+    out = []
+    try:
+        inputs = gen_map.make_inputs(spec, "list")
+        ax = spec["axes"][0]
+        fixed_j = {ax: cfg["sel"]}
+        fixed = {a: sel_from(s_) for a, s_ in fixed_j.items()}
+        obs = {}
+        for entry in ("sync", "async"):
+            folder = os.path.join(base, entry)
+            p = gen_map.build(spec)
+            terms.LOG.clear()
+            kw = dict(run_folder=folder, internal_shapes=gen_map.internal_shapes_arg(spec), storage="file_array", fixed_indices=fixed)
+            try:
+                with contextlib.redirect_stdout(io.StringIO()), warnings.catch_warnings():
+                    warnings.simplefilter("ignore")
+                    if entry == "sync":
+                        p.map(dict(inputs), parallel=False, **kw)
+                    else:
+                        s_ = sched.Sched(explore.Chooser(), eager_points=False)
+                        ex = sched.DeferredExecutor(s_, "E")
+
+                        async def main(p=p, ex=ex, kw=kw):
+                            am = p.map_async(dict(inputs), executor=ex, **kw)
+                            return await am.task
+                        sched.run_async(main, s_)
+            except Exception as e:  # noqa: BLE001
+                return [(findings.exc_sig(e, **sigbase, entry=entry), f"{cfg}: {entry} piece {fixed_j} raised {type(e).__name__}: {str(e)[:120]}")]
+            obs[entry] = (sorted(terms.LOG), canon_state(present_state(spec, folder, "file_array")))
+        want_state = canon_state(expected_after(spec, {}, fixed_j))
+        for entry in ("sync", "async"):
+            if obs[entry][1] != want_state:
+                out.append(({"kind": "present-set", **sigbase, "entry": entry}, f"{cfg}: the {entry} piece {fixed_j} stored {obs[entry][1]}, expected {want_state}"))
+        if obs["sync"][0] != obs["async"][0]:
+            out.append(({"kind": "async-differs-from-sync", **sigbase},
+                        f"{cfg}: piece {fixed_j}: map_async called {len(obs['async'][0])} functions, map called {len(obs['sync'][0])}"))
+        return out
+    finally:
         shutil.rmtree(base, ignore_errors=True)
 
 
@@ -617,6 +667,9 @@ def plan(tier, seed):
                     units.append(("B-learners-all-unit-orders", ("B", cfg)))
                     if not ret and pipe in ("chain", "outer2d"):
                         units.append(("B-learners-all-unit-orders", ("B", {**cfg, "element_scope": True})))
+    for pipe in ("chain", "outer2d", "tuple-zip", "internal-partial", "reduce-other-axis"):
+        for sel in (1, sel_json(slice(None, None, 2))):
+            units.append(("E-one-piece-through-map_async", ("E", {"pipe": pipe, "sel": sel})))
     for pipe in ("chain", "outer2d", "tuple-zip"):
         for storage in ("shared_memory_dict", "file_array"):
             for rev in (False, True):
@@ -664,6 +717,15 @@ def run_unit(unit):
         acc.stratum("B-executions", n)
         if cfg["split"] and not cfg["ret"]:
             acc.sample({"part": "B", "cfg": cfg, "orders_per_generation": counts})
+    elif kind == "E":
+        _, cfg = unit
+        acc.case(hash(str(cfg)))
+        acc.states += 1
+        acc.transitions += 2
+        acc.traces += 2
+        acc.stratum("E-async-piece")
+        for sig, text in check_async_piece(cfg):
+            acc.violation(sig, {"part": "E", "cfg": cfg}, text)
     elif kind == "D":
         _, cfg = unit
         acc.case(hash(str(cfg)))
@@ -701,6 +763,8 @@ def replay(art):
     if art["part"] == "C" and "output_names_case" in art:
         outs, fixed, expect, why, sub = output_name_cases(art["cfg"]["pipe"])[art["output_names_case"]]
         return [s for s, _ in check_output_names(art["cfg"], outs, fixed, expect, why, sub)]
+    if art["part"] == "E":
+        return [s for s, _ in check_async_piece(art["cfg"])]
     if art["part"] == "D":
         return [s for s, _ in check_pool_pieces(art["cfg"])]
     if art["part"] == "B":
